@@ -31,8 +31,16 @@ class SimpleGzipDecompressor(object):
 
         Also checks for errors such as truncated input.
         No other methods may be called on this object after `flush`.
+
+        Raises:
+            zlib.error: The compressed stream ended before its end marker.
         """
-        return self.decompressobj.flush()
+        data = self.decompressobj.flush()
+
+        if not self.decompressobj.eof:
+            raise zlib.error('Compressed stream is incomplete or truncated.')
+
+        return data
 
 
 class GzipDecompressor(SimpleGzipDecompressor):
